@@ -85,6 +85,66 @@ const ESCAPES: &[&str] = &[
     "\u{e9}", "\\",
 ];
 
+/// format specifications: flags x width x precision x conversion x value, in printf style (the
+/// `format` filter) and in str.format style (pycompat), numbers at the limits of what the formatter
+/// and the allocator can take
+const FMT_FLAGS: &[&str] = &["", "-", "0", "+", " ", "#", "-0+ #"];
+const FMT_NUMS: &[&str] = &["", "0", "1", "12", "1023", "65534", "65535", "65536", "99999999999", "18446744073709551616"];
+const FMT_TYPES: &[&str] = &["d", "i", "s", "r", "f", "F", "e", "E", "g", "G", "x", "X", "o", "c", "%", "b", "n", ""];
+const FMT_VALUES: &[&str] = &["1", "-1.5", "1e300", "'a'", "170141183460469231731687303715884105727", "none", "[1]"];
+
+fn fmt_total() -> u64 {
+    (FMT_FLAGS.len() * FMT_NUMS.len() * FMT_NUMS.len() * FMT_TYPES.len() * FMT_VALUES.len()) as u64
+}
+
+fn fmt_case(mut n: u64) -> (String, String) {
+    let mut pick = |l: &'static [&'static str]| {
+        let x = l[(n % l.len() as u64) as usize];
+        n /= l.len() as u64;
+        x
+    };
+    let (val, ty, prec, width, flags) = (pick(FMT_VALUES), pick(FMT_TYPES), pick(FMT_NUMS), pick(FMT_NUMS), pick(FMT_FLAGS));
+    let dot = if prec.is_empty() { String::new() } else { format!(".{}", prec) };
+    let printf = format!("{{{{ '%{}{}{}{}'|format({}) }}}}", flags, width, dot, ty, val);
+    let align = if flags.contains('-') { "<" } else if flags.contains('0') { "0>" } else { ">" };
+    let sign = if flags.contains('+') { "+" } else if flags.contains(' ') { " " } else { "" };
+    let alt = if flags.contains('#') { "#" } else { "" };
+    let newstyle = format!("{{{{ '{{:{}{}{}{}{}{}}}'.format({}) }}}}", align, sign, alt, width, dot, if ty == "%" || ty == "r" || ty == "i" { "" } else { ty }, val);
+    (printf, newstyle)
+}
+
+/// objects that outlive the construct that made them (a loop object, a caller, a macro, a block
+/// reference, a namespace handed out through a namespace), then every way of using them
+const AFTER_MAKERS: &[(&str, &str)] = &[
+    ("loop_exhausted", "{% for x in [1, 2, 3] %}{% set ns.o = loop %}{% endfor %}"),
+    ("loop_one_item", "{% for x in [1] %}{% set ns.o = loop %}{% endfor %}"),
+    ("loop_over_string", "{% for x in 'ab' %}{% set ns.o = loop %}{% endfor %}"),
+    ("loop_unsized", "{% for x in xs|select %}{% set ns.o = loop %}{% endfor %}"),
+    ("loop_left_by_break", "{% for x in [1, 2, 3] %}{% set ns.o = loop %}{% break %}{% endfor %}"),
+    ("loop_filtered", "{% for x in [1, 2, 3] if x > 1 %}{% set ns.o = loop %}{% endfor %}"),
+    ("loop_recursive", "{% for x in [[1], [2]] recursive %}{% set ns.o = loop %}{% if x is iterable %}{{ loop(x) }}{% endif %}{% endfor %}"),
+    ("loop_inner_of_nested", "{% for y in [1, 2] %}{% for x in [1, 2] %}{% set ns.o = loop %}{% endfor %}{% endfor %}"),
+    ("loop_from_macro", "{% macro mk() %}{% for x in [1, 2] %}{% set ns.o = loop %}{% endfor %}{% endmacro %}{{ mk() }}"),
+    ("caller", "{% macro cw() %}{% set ns.o = caller %}{% endmacro %}{% call cw() %}body{% endcall %}"),
+    ("macro_from_loop", "{% for x in [1, 2] %}{% macro lm(a) %}{{ x }}{{ a }}{{ loop.index }}{% endmacro %}{% set ns.o = lm %}{% endfor %}"),
+    ("macro_from_macro", "{% macro outer(p) %}{% macro inner(a) %}{{ p }}{{ a }}{% endmacro %}{% set ns.o = inner %}{% endmacro %}{{ outer(1) }}"),
+    ("self_reference", "{% block bb %}b{% endblock %}{% set ns.o = self %}"),
+    ("namespace_of_with", "{% with %}{% set inner = namespace(a=1) %}{% set ns.o = inner %}{% endwith %}"),
+    ("cycler_and_joiner", "{% set ns.o = cycler(1, 2) %}{% set ns.j = joiner(', ') %}{{ ns.o.next() }}{{ ns.j() }}"),
+];
+const AFTER_USES: &[&str] = &[
+    "{{ ns.o }}", "{{ ns.o.index }}", "{{ ns.o.index0 }}", "{{ ns.o.revindex }}", "{{ ns.o.revindex0 }}", "{{ ns.o.first }}", "{{ ns.o.last }}", "{{ ns.o.length }}", "{{ ns.o.depth }}", "{{ ns.o.depth0 }}",
+    "{{ ns.o.previtem }}", "{{ ns.o.nextitem }}", "{{ ns.o.cycle('a', 'b') }}", "{{ ns.o.cycle() }}", "{{ ns.o.changed(1) }}{{ ns.o.changed(1) }}", "{{ ns.o() }}", "{{ ns.o(1) }}", "{{ ns.o([[3]]) }}", "{{ ns.o(1, 2, 3, a=4) }}",
+    "{% for q in ns.o %}{{ q }}{% endfor %}", "{{ ns.o|length }}", "{{ ns.o|list }}", "{{ ns.o == ns.o }}{{ ns.o < ns.o }}", "{{ ns.o|tojson }}", "{{ ns.o|string|length }}", "{{ ns.o.bb() }}", "{{ ns.o.nope }}{{ ns.o['index'] }}{{ ns.o[0] }}",
+    "{% call ns.o() %}x{% endcall %}", "{% for y in [1] %}{{ ns.o.index }}{{ loop.index }}{% endfor %}", "{{ ns.o.next() }}{{ ns.o.current }}{{ ns.o.reset() }}", "{{ ns.o.a }}{% set ns.o.a = 2 %}{{ ns.o.a }}",
+    "{% macro later() %}{{ ns.o.revindex0 }}{{ ns.o() }}{% endmacro %}{{ later() }}", "{{ [ns.o, ns.o]|unique|list|length }}{{ {'k': ns.o}|items|list|length }}",
+];
+
+fn after_case(n: u64) -> String {
+    let (_, maker) = AFTER_MAKERS[(n as usize) / AFTER_USES.len()];
+    format!("{{% set ns = namespace(o=none) %}}{}{}", maker, AFTER_USES[(n as usize) % AFTER_USES.len()])
+}
+
 fn ranked_string(mut n: u64, alphabet: &[&str]) -> String {
     // ranks all strings of length 0,1,2,... in order
     let base = alphabet.len() as u64;
@@ -360,6 +420,14 @@ fn run_case(family: &str, n: u64, cc: &mut ChildCtx) {
         "accumulate" => {
             exercise_template(env, &acc_case(n), &ctx, cc);
         }
+        "afterlife" => {
+            exercise_template(env, &after_case(n), &ctx, cc);
+        }
+        "format_specs" => {
+            let (a, b) = fmt_case(n);
+            exercise_template(env, &a, &ctx, cc);
+            exercise_template(env, &b, &ctx, cc);
+        }
         "escapes" => {
             let body = ranked_string(n, ESCAPES);
             for q in ['\'', '"'] {
@@ -394,6 +462,11 @@ fn describe(family: &str, n: u64) -> String {
         "depth" => format!("{} depth {}", DEPTH_SHAPES[(n as usize) / DEPTHS.len()], DEPTHS[(n as usize) % DEPTHS.len()]),
         "programs" => gen::Gen::new(gen::Opts { depth: 2, max_programs: u64::MAX, multi_template: false, loop_controls: true }).program(n).source(),
         "escapes" => format!("string literal body {:?}", ranked_string(n, ESCAPES)),
+        "format_specs" => {
+            let (a, b) = fmt_case(n);
+            format!("{} / {}", a, b)
+        }
+        "afterlife" => format!("{} :: {}", AFTER_MAKERS[(n as usize) / AFTER_USES.len()].0, after_case(n)),
         "accumulate" => format!("{} x{} :: {}", ACC_STEPS[(n as usize) / ACC_COUNTS.len()].0, ACC_COUNTS[(n as usize) % ACC_COUNTS.len()], acc_case(n)),
         _ => String::new(),
     }
@@ -494,6 +567,11 @@ pub fn main(args: Args) -> i32 {
     shards.extend(crash::shards_for("depth", ndepth, 1, "main", "debug"));
     let nesc = ranked_total(if quick { 3 } else { 4 }, ESCAPES.len() as u64);
     shards.extend(crash::shards_for("escapes", nesc, 20_000, "2m", "release"));
+    let nafter = (AFTER_MAKERS.len() * AFTER_USES.len()) as u64;
+    shards.extend(crash::shards_for("afterlife", nafter, 100, "2m", "release"));
+    shards.extend(crash::shards_for("afterlife", nafter, 100, "2m", "debug"));
+    let nfmt = fmt_total();
+    shards.extend(crash::shards_for("format_specs", nfmt, 2_000, "2m", "release"));
     let nacc = (ACC_STEPS.len() * ACC_COUNTS.len()) as u64;
     shards.extend(crash::shards_for("accumulate", nacc, 1, "2m", "debug"));
     shards.extend(crash::shards_for("accumulate", nacc, 1, "2m", "release"));
@@ -519,6 +597,8 @@ pub fn main(args: Args) -> i32 {
     acc.count("cases_depth", ndepth * if quick { 2 } else { 4 });
     acc.count("cases_programs", nprog);
     acc.count("cases_escapes", nesc);
+    acc.count("cases_format_specs", nfmt);
+    acc.count("cases_afterlife", nafter * 2);
     acc.count("cases_accumulate", nacc * if quick { 2 } else { 4 });
     // distinct non-trivial: cases that got as far as rendering or a render error (not a load error)
     let nontrivial = res.outcomes.get("rendered").copied().unwrap_or(0) + res.outcomes.get("render error").copied().unwrap_or(0) + res.outcomes.get("expr ok").copied().unwrap_or(0) + res.outcomes.get("expr error").copied().unwrap_or(0);
@@ -565,7 +645,7 @@ pub fn main(args: Args) -> i32 {
             level: "exploration",
             tier: args.tier,
             seed: args.seed,
-            rule: format!("supervised child processes (RLIMIT_AS 4 GiB, per-case wall cap, panics caught, deaths attributed to the published case): (1) every string of <= {} fragments over a 24-fragment alphabet as template and as expression; (2) every sequence of <= {} tags over 38 tags with canned arguments; (3) every built-in and contrib filter/test/method x 8 receivers and every function, x every argument tuple of arity <= {} over a 14-value boundary alphabet; (4) 12 operators + 11 argument-taking built-ins over all pairs of the edge value alphabet; (5) 31 chain/nesting shapes x depths 150/151/2000/20000/200000 on the main thread and a 2 MiB thread in an opt-level-0 build (thorough: also the checked-release build); (6) every program of the depth-2 generator space with loop controls; (7) every string literal (both quote styles, as output, as assignment + include name, and as expression) whose body is a sequence of at most {} pieces out of 28 (every escape form well-formed, truncated and out of range, surrogate halves in both roles, plain and multi-byte characters, a trailing backslash); (8) 22 run-time value chains built by loops (33 / 1000 / 30 000 iterations). Each case: load, render, format the error in five forms. Oracle: no panic, no signal, no abort. distinct non-trivial = cases that reached evaluation (rendered or failed at run time)", if quick { 4 } else { 5 }, if quick { 3 } else { 4 }, barity, if quick { 3 } else { 4 }),
+            rule: format!("supervised child processes (RLIMIT_AS 4 GiB, per-case wall cap, panics caught, deaths attributed to the published case): (1) every string of <= {} fragments over a 24-fragment alphabet as template and as expression; (2) every sequence of <= {} tags over 38 tags with canned arguments; (3) every built-in and contrib filter/test/method x 8 receivers and every function, x every argument tuple of arity <= {} over a 14-value boundary alphabet; (4) 12 operators + 11 argument-taking built-ins over all pairs of the edge value alphabet; (5) 31 chain/nesting shapes x depths 150/151/2000/20000/200000 on the main thread and a 2 MiB thread in an opt-level-0 build (thorough: also the checked-release build); (6) every program of the depth-2 generator space with loop controls; (7) every string literal (both quote styles, as output, as assignment + include name, and as expression) whose body is a sequence of at most {} pieces out of 28 (every escape form well-formed, truncated and out of range, surrogate halves in both roles, plain and multi-byte characters, a trailing backslash); (8) 22 run-time value chains built by loops (33 / 1000 / 30 000 iterations); (9) every format specification flags x width x precision x conversion x value (7 x 10 x 10 x 18 x 7, numbers up to 2^64) through the format filter and through str.format; (10) 15 kinds of objects that outlive the construct that made them (loop objects after exhaustion / break / recursion, caller, macros from loops and macros, self, namespaces, cycler, joiner) x 33 ways of using them afterwards. Each case: load, render, format the error in five forms. Oracle: no panic, no signal, no abort. distinct non-trivial = cases that reached evaluation (rendered or failed at run time)", if quick { 4 } else { 5 }, if quick { 3 } else { 4 }, barity, if quick { 3 } else { 4 }),
             exhaustive: true,
             bound: json!({"fragments": FRAGS, "tags": TAGS, "args": ARGS, "receivers": RECEIVERS, "depth_shapes": DEPTH_SHAPES, "depths": DEPTHS}),
             assumptions: vec!["a timeout is recorded as inconclusive, not as a crash".into(), "byte strings longer than the fragment bound and arguments off the boundary alphabet are not explored".into()],
